@@ -31,7 +31,20 @@ def rule_tables(ck: Check, repo: Repo, folder: Folder) -> None:
     compiled = [re.compile(p.pattern, p.flags) for p in pats]  # stdlib re on folded constants only
     ck.trust("stdlib re applied to the folded reader constants and schematic notices generated from the folded"
              " writer table (constants against constants; no repository code runs)")
-    holders = ["Jane Doe", "Example Corp. <https://example.com>", "Ünïcode Wörks & Sons, Inc.", "a"]
+    holders = ["Jane Doe", "Example Corp. <https://example.com>", "Ünïcode Wörks & Sons, Inc.", "a", "Yoyodyne Holdings (Europe)"]
+    # structural twin of the table: between the lazy statement group and the shared end pattern there is nothing - whatever
+    # is put there (an optional bracket, quote, dot) is taken from the END of every holder that ends in it
+    from . import c02 as _c02
+    endp = _c02.end_pattern(folder)
+    for idx, pt in enumerate(pats):
+        ok_tail = pt.pattern.endswith("(?P<statement>.*?))" + endp)
+        r.instance(f"statement-tail:{idx}", {"pattern": idx, "statement_group_directly_before_end_pattern": ok_tail})
+        if not ok_tail:
+            tail = pt.pattern[pt.pattern.rfind("(?P<statement>"):][:60]
+            r.violation(f"{EX}._COPYRIGHT_PATTERNS[{idx}]", "something stands between the holder group and the end pattern",
+                        f"`…{tail}…`: the lazy holder group gives up whatever the inserted piece can match - a holder such as"
+                        " `Yoyodyne Holdings (Europe)` is read back without its last character and merged under the cut name",
+                        repo.loc(repo.module_assign(EX, "_COPYRIGHT_PATTERNS")))
     if ck.tier == "thorough":
         holders += ["J. R. \"Bob\" Dobbs", "Jane Doe <jane@example.com> and others", "The Foo Authors (see AUTHORS)", "Team #42",
                     "contributors to foo-bar", "X", "Doe, Jane", "O'Neil & Söhne", "jane@example.com", "https://example.com/people",
